@@ -9,6 +9,7 @@ import (
 	sdkmath "cosmossdk.io/math"
 	sdk "github.com/cosmos/cosmos-sdk/types"
 
+	stakingtypes "github.com/cosmos/cosmos-sdk/x/staking/types"
 	vtypes "github.com/haqq-network/haqq/x/vesting/types"
 
 	"verif/harness/engine"
@@ -74,10 +75,10 @@ func schedules(tier string) []sched {
 }
 
 type sdriver struct {
-	w      *world.World
-	models []vmodel
-	tier   string
-	t0     int64
+	w          *world.World
+	models     []vmodel
+	tier       string
+	t0         int64
 	F, G, D, V sdk.AccAddress
 }
 
@@ -161,6 +162,56 @@ func (d *sdriver) ops(w *world.World, depth int, path []string) []engine.Op {
 			})
 		}
 	}
+	// the grantee stakes what has vested and starts unbonding it again (the account's delegation
+	// bookkeeping then has to count bonded and unbonding coins), as separate operations and - so that
+	// it fits the quick depth - as one step followed by a merged grant
+	stake := func() bool {
+		ctx := w.Ctx()
+		acc, ok := w.App.AccountKeeper.GetAccount(ctx, d.V).(*vtypes.ClawbackVestingAccount)
+		if !ok {
+			return false
+		}
+		free := w.App.BankKeeper.GetBalance(ctx, d.V, world.Denom).Amount.Sub(acc.GetVestingCoins(w.Header.Time).AmountOf(world.Denom))
+		if !free.IsPositive() {
+			return false
+		}
+		_, err := w.RunMsg(ctx, stakingtypes.NewMsgDelegate(d.V, w.ValAddr[0], sdk.NewCoin(world.Denom, free)))
+		return err == nil
+	}
+	unbond := func() bool {
+		ctx := w.Ctx()
+		del, ok := w.App.StakingKeeper.GetDelegation(ctx, d.V, w.ValAddr[0])
+		if !ok {
+			return false
+		}
+		v, _ := w.App.StakingKeeper.GetValidator(ctx, w.ValAddr[0])
+		amt := v.TokensFromShares(del.Shares).TruncateInt()
+		_, err := w.RunMsg(ctx, stakingtypes.NewMsgUndelegate(d.V, w.ValAddr[0], sdk.NewCoin(world.Denom, amt)))
+		return err == nil
+	}
+	if d.tier == "thorough" {
+		add("delegate(vested)", func(p []string, res *engine.Result, m vmodel) (string, vmodel) {
+			if !stake() {
+				return "skip", m
+			}
+			return "ok", m
+		})
+		add("undelegate(all)", func(p []string, res *engine.Result, m vmodel) (string, vmodel) {
+			if !unbond() {
+				return "skip", m
+			}
+			return "ok", m
+		})
+	}
+	{
+		s1 := schedules(d.tier)[0]
+		add(fmt.Sprintf("stake+unbond(vested)+mergeCreate(%s,start+0)", s1.name), func(p []string, res *engine.Result, m vmodel) (string, vmodel) {
+			if !m.exists || !stake() || !unbond() {
+				return "skip", m
+			}
+			return d.grant("msgCreate", true, d.F, s1, d.t0, p, res, m)
+		})
+	}
 	// grants whose lockup and vesting totals differ in a denomination one of the two does not have
 	// at all: both message kinds must refuse them (every coin of a grant needs a lockup and a vesting event)
 	a4 := rm.One(world.Denom, 4)
@@ -198,14 +249,20 @@ func (d *sdriver) ops(w *world.World, depth int, path []string) []engine.Op {
 		return d.grant("msgConvertInto", true, d.G, s1, d.t0, p, res, m)
 	})
 	for _, c := range []struct {
-		name       string
-		by, dest   sdk.AccAddress
+		name     string
+		by, dest sdk.AccAddress
 	}{{"clawback(F)", d.F, nil}, {"clawback(F>D)", d.F, d.D}, {"clawback(G)", d.G, nil}} {
 		c := c
-		add(c.name, func(p []string, res *engine.Result, m vmodel) (string, vmodel) { return d.clawback(c.by, c.dest, p, res, m) })
+		add(c.name, func(p []string, res *engine.Result, m vmodel) (string, vmodel) {
+			return d.clawback(c.by, c.dest, p, res, m)
+		})
 	}
-	add("updateFunder(F>G)", func(p []string, res *engine.Result, m vmodel) (string, vmodel) { return d.updFunder(d.F, d.G, p, res, m) })
-	add("updateFunder(G>F)", func(p []string, res *engine.Result, m vmodel) (string, vmodel) { return d.updFunder(d.G, d.F, p, res, m) })
+	add("updateFunder(F>G)", func(p []string, res *engine.Result, m vmodel) (string, vmodel) {
+		return d.updFunder(d.F, d.G, p, res, m)
+	})
+	add("updateFunder(G>F)", func(p []string, res *engine.Result, m vmodel) (string, vmodel) {
+		return d.updFunder(d.G, d.F, p, res, m)
+	})
 	for _, k := range []int64{9, 10, 11, 19, 20, 21, 30, 45} {
 		k := k
 		add(fmt.Sprintf("time(+%d)", k), func(p []string, res *engine.Result, m vmodel) (string, vmodel) {
@@ -359,6 +416,11 @@ func (d *sdriver) clawback(by, dest sdk.AccAddress, p []string, res *engine.Resu
 	_, err := w.RunMsg(ctx, vtypes.NewMsgClawback(by, d.V, dest))
 	res.Evaluations++
 	if err != nil {
+		// the recorded funder can always take the unvested coins back: they never leave the account
+		if m.exists && by.String() == m.funder && !m.vest.Total().Sub(m.vest.Read(now)).IsZero() {
+			d.viol(res, "clawback", "msgClawback", "refused", "a clawback by the recorded funder was refused although coins are unvested", p,
+				map[string]any{"err": err.Error(), "unvested": m.vest.Total().Sub(m.vest.Read(now)).String(), "t_rel": now - d.t0})
+		}
 		return engine.ErrClass(err), m
 	}
 	if !m.exists {
